@@ -295,7 +295,10 @@ func fatScenarios(cfg fatCfg, oracle string, depth int, quick bool) []*fatScen {
 		fsOp{Kind: "append", Path: "F1.BIN", Len: "c+1"}, fsOp{Kind: "append", Path: "f2long-name.bin", Len: "1"},
 		fsOp{Kind: "trunc", Path: "F1.BIN"}, fsOp{Kind: "trunc", Path: "f2long-name.bin"},
 		fsOp{Kind: "remove", Path: "F1.BIN"}, fsOp{Kind: "readpartial", Path: "F1.BIN"}, fsOp{Kind: "readpartial", Path: "f2long-name.bin"}, fsOp{Kind: "reopen"})
-	out = append(out, &fatScen{Name: "growshrink", Cfg: cfg, Letters: lg, Depth: depth, Oracle: oracle})
+	// the free clusters are dirty: a junk file of 24 clusters was written and removed before the exploration starts, so
+	// that whatever the library hands out again without clearing (slack behind EOF, holes) shows as non-zero bytes
+	dirty := []fsOp{W("JUNK.BIN", "0", "24c"), {Kind: "remove", Path: "JUNK.BIN"}}
+	out = append(out, &fatScen{Name: "growshrink", Cfg: cfg, Prefix: dirty, Letters: lg, Depth: depth, Oracle: oracle})
 
 	// dirs: nested directories, a directory already longer than one cluster (prefix state)
 	var pre []fsOp
